@@ -36,7 +36,7 @@ CHECKS = {
     "C07": ex("model-based PBT over generated batches and chunk sizes",
               "Batches mixing fresh objects, updates, the same object twice, duplicate uuids, wrong-type and invalid members and intra-batch conflicts at generated positions, for Many and Bulk with chunk sizes 0-5; (n, err) and the complete observation are compared with the model's all-or-nothing / whole-chunk semantics.",
               "DESIGN.md §4 C07"),
-    "C08": ex("generated concurrent programs under the Go race detector + porcupine linearizability check of recorded histories against the reference model",
+    "C08": ex("generated concurrent programs (general, contention, readers, flushers classes) under the Go race detector + porcupine linearizability check of recorded histories against the reference model + final-consistency invariant",
               "Generated multi-goroutine programs over all public entry points run several times under different GOMAXPROCS with random yields at fs call sites in a -race build; any race report or crash is a violation; for the class of calls that are atomic observable pieces the recorded history (closed by a sequential sweep) must be linearizable w.r.t. the model (porcupine). Schedules are sampled.",
               "DESIGN.md §4 C08", "exploration",
               TRUST + " Trusted additionally: Go's race detector and porcupine v1.3.0. Interleavings are sampled; the race detector is order-insensitive for accesses that occur in the run."),
@@ -44,7 +44,7 @@ CHECKS = {
               "Every generated program (all entry points, all configurations, flusher running) is executed single-threaded under a lock monitor that flags re-entrant read acquisitions, self deadlocks and lock-order cycles deterministically, then concurrently with perturbation under a watchdog that declares a hang only when all workers sit in lock acquisitions on two samples.",
               "DESIGN.md §4 C09", "exploration",
               TRUST + " 'For every call path' is approximated dynamically: a nested acquisition on a path no generated program executes is missed (evidence lists the entry points executed)."),
-    "C10": ex("model-based stateful PBT under a harness-owned virtual clock: visibility after every op, deadline-based disk oracle through an independent walker, second-handle differential after flush/Close",
+    "C10": ex("model-based stateful PBT under a harness-owned virtual clock: visibility after every op, deadline-based disk oracle through an independent walker, second-handle differential after flush/Close, collections sharing one Schema value; plus generated readers-vs-flusher liveness runs on a scaled clock",
               "time.Sleep of the working-tree copy is redirected to a virtual clock, so threshold/timeout driven flushes are stepped deterministically; liveness is checked as 'on disk by an explicit conservative virtual-time deadline'.",
               "DESIGN.md §4 C10", "exploration",
               TRUST + " Assumes the flusher measures time only through time.Sleep/After/Ticker."),
@@ -57,13 +57,13 @@ CHECKS = {
     "C13": ex("model-based PBT on tie-heavy collections: key-sequence oracle for order, Reverse, Limit, One, AssignIndex",
               "The returned key sequence must equal the first min(limit, matches) keys of the model's sorted match set (tie order left free), results must be distinct members of the match set; AssignIndex is compared after every op.",
               "DESIGN.md §4 C13"),
-    "C14": ex("PBT over generated object shapes with reflection-driven mutation scripts and address-set disjointness",
+    "C14": ex("PBT over generated object shapes (incl. containers nested in containers, zero values in interface slots) with reflection-driven mutation scripts, address-set disjointness and cold-handle file round trip",
               "Caller objects are scrambled after storing, returned objects are scrambled after reading, successive reads must share no reachable pointer/slice/map, and a cached read must equal a cold read through the file.",
               "DESIGN.md §4 C14"),
     "C15": ex("model-based PBT with data-driven Transform/Validate hooks on all insertion entry points",
               "Validity depends on the transformed and case-canonicalised value; Validate records what it saw, which must equal what was stored; invalid objects must be absent from every read path.",
               "DESIGN.md §4 C15"),
-    "C16": ex("model-based PBT over case-mapping strings (special-casing runes) on top-level/nested/behind-pointer/embedded paths, indexed or not, unique or not",
+    "C16": ex("model-based PBT over case-mapping strings (special-casing runes, long strings) on top-level/nested/behind-pointer/embedded paths, indexed or not, unique or not, through custom schemas and through struct tags",
               "Stored values, probes and uniqueness are all judged on strings.ToUpper/ToLower canonical forms; idempotence is checked on what the database returns.",
               "DESIGN.md §4 C16"),
     "C17": ex("PBT over (stored shape, current shape) pairs from a struct family + generated descriptor edits + generated settings switches on a live handle under the virtual clock",
@@ -77,7 +77,7 @@ CHECKS = {
     "C19": ex("structure-aware mutation of schema.json/object files + stray directory entries + hostile search argument triples, battery of API calls under recover() and a watchdog; native go fuzzing in the thorough tier",
               "Any panic or hang is a violation; unevaluable searches must return no objects; with only stray entries added everything must still equal the model.",
               "DESIGN.md §4 C19"),
-    "C20": ex("model-based PBT: search evaluated, generated writes placed relative to the result range, then consumed; snapshot-set oracle",
+    "C20": ex("model-based PBT: search evaluated, generated writes placed relative to the result range, then consumed or refined (sibling/late And/Or derivations); snapshot-set oracle",
               "Collected uuids must be exactly the matches at evaluation time unless members were deleted (then an error or a duplicate-free subset); never an object that did not match.",
               "DESIGN.md §4 C20"),
 }
